@@ -210,6 +210,7 @@ func runThorough(c *Ctx, repo, verifDir string) map[string]interface{} {
 			fmt.Printf("STALE-VARIANT: %s (%s) no longer applies to the tree: port it (tools/mutants_src.py or seeded/…/patch.diff)\n", m.ID, c.Prop)
 			c.okT("Tselfcheck", m.ID, "-", "variant text no longer present in the tree: skipped")
 		default:
+			fmt.Printf("STALE-VARIANT: %s (%s) is not usable on this tree (%s: %s): port it\n", m.ID, c.Prop, m.res.Status, m.res.Lines)
 			c.okT("Tselfcheck", m.ID, "-", "variant not usable on this tree ("+m.res.Status+"): skipped")
 			skip++
 		}
